@@ -102,13 +102,14 @@ def check_history(ctx, TrieDict, history, queries, keyform=None):
     try:
         if len(t) != len(shadow):
             ctx.viol("C10:len", wit, {"got": len(t), "want": len(shadow)})
-        items = [(tuple(p), v) for p, v in t.items()]
+        # materialise first: a caller keeping the yielded key lists must see the right keys (no aliasing between yields)
+        items = [(tuple(p), v) for p, v in list(t.items())]
         if sorted(map(repr, items)) != sorted(map(repr, shadow.items())):
             ctx.viol("C10:items", wit, {"got": items, "want": list(shadow.items())})
-        it = [(tuple(p), v) for p, v in iter(t)]
+        it = [(tuple(p), v) for p, v in list(iter(t))]
         if sorted(map(repr, it)) != sorted(map(repr, shadow.items())):
             ctx.viol("C10:iter", wit, {"got": it})
-        pre = [tuple(p) for p in t.prefixes()]
+        pre = [tuple(p) for p in list(t.prefixes())]
         if sorted(map(repr, pre)) != sorted(map(repr, shadow)):
             ctx.viol("C10:prefixes", wit, {"got": pre, "want": list(shadow)})
         vals = list(t.values())
